@@ -72,7 +72,7 @@ type rawClient struct {
 }
 
 func dialRaw(host string) (*rawClient, error) {
-	nc, err := net.DialTimeout("tcp", host, 3*time.Second)
+	nc, err := net.DialTimeout("tcp", host, 15*time.Second)
 	if err != nil {
 		return nil, err
 	}
@@ -87,7 +87,8 @@ func (r *rawClient) do(req *base.Request) (res *base.Response, connErr error, er
 		req.Header = base.Header{}
 	}
 	req.Header["CSeq"] = base.HeaderValue{strconv.Itoa(r.cseq)}
-	_ = r.nc.SetDeadline(time.Now().Add(5 * time.Second))
+	// (generous: on a machine busy with other work a response can take seconds without the server being at fault)
+	_ = r.nc.SetDeadline(time.Now().Add(20 * time.Second))
 	if werr := r.c.WriteRequest(req); werr != nil {
 		return nil, werr, nil
 	}
@@ -95,7 +96,7 @@ func (r *rawClient) do(req *base.Request) (res *base.Response, connErr error, er
 		what, rerr := r.c.Read()
 		if rerr != nil {
 			if ne, ok := rerr.(net.Error); ok && ne.Timeout() {
-				return nil, nil, fmt.Errorf("no response to %s (CSeq %d) within 5 s", req.Method, r.cseq)
+				return nil, nil, fmt.Errorf("no response to %s (CSeq %d) within 20 s", req.Method, r.cseq)
 			}
 			return nil, rerr, nil
 		}
